@@ -79,6 +79,8 @@ RULES = [
      lambda m: 'RoaringBitmap::singleton_(%s)' % (m.group(1) or m.group(2))),
     ('R7d', 'RoaringBitmap::from_sorted_iter(v).unwrap() -> RoaringBitmap::from_sorted_vec_unwrap_(v) (requires v strictly increasing)',
      re.compile(r'RoaringBitmap::from_sorted_iter\((\w+)\)\.unwrap\(\)'), r'RoaringBitmap::from_sorted_vec_unwrap_(\1)'),
+    ('R7h', '`X OP= EXPR as QuantizedWord;` -> `X OP= bool_word_(EXPR);` (Verus has no bool-to-integer cast; bool_word_ is the verified function `if b { 1 } else { 0 }`, Rust\'s definition of the cast)',
+     re.compile(r'(\w+ (?:\+|\||\^)= )([^;\n]+?) as QuantizedWord;'), r'\1bool_word_(\2);'),
     ('R6e', '`for _ in A..B {` -> `let mut cnt__ = A; while cnt__ < B { cnt__ += 1;` (counting loop without a loop variable; gives the invariant a name for the progress)',
      re.compile(r'for _ in (\w+)\.\.(\w+) \{'), r'let mut cnt__ = \1; while cnt__ < \2 { cnt__ += 1;'),
     ('R6f', '`for x in A..=B {` -> `let mut cnti__: u64 = A as u64; while cnti__ <= B as u64 { let x = cnti__ as _; cnti__ += 1;` (inclusive counting loop, counter widened so that the last value does not overflow)',
